@@ -47,7 +47,7 @@ Proof.
   do 9 (destruct k as [|k]; [
     unfold gen_expv, gen_expv_gac, gen_expv_sac, gen_expv_pad; cbn [sq_iter];
     match goal with |- context [expv_pre ?j ?s] => rewrite (pmap2_scale _ (expv_pre j s)) by (intro f; exact (P j s f ltac:(lia))) end;
-    destruct ac, inverse; reflexivity |]).
+    unfold compose2, compose3; destruct ac, inverse; reflexivity |]).
   clear P. lia.
 Qed.
 Theorem gen_expv3_is_model ac inverse k scale flow : (k <= 8)%nat ->
@@ -58,7 +58,7 @@ Proof.
   do 9 (destruct k as [|k]; [
     unfold gen_expv, gen_expv_gac, gen_expv_sac, gen_expv_pad; cbn [sq_iter];
     match goal with |- context [expv_pre ?j ?s] => rewrite (pmap3_scale _ (expv_pre j s)) by (intro f; exact (P j s f ltac:(lia))) end;
-    destruct ac, inverse; reflexivity |]).
+    unfold compose2, compose3; destruct ac, inverse; reflexivity |]).
   clear P. lia.
 Qed.
 
